@@ -5,6 +5,8 @@ R-C07-2  verifier: for every promise the value-generator scalar receives -(w_j *
          commitment's dynamic scalar, in a whole loop over the statement's promises
 R-C07-3  prover: value.checked_sub(promise) per pair, and the decomposition consumes the difference (R-C06-1)
 R-C07-4  range guard: for every statement of the batch and every Some promise, `bits < 64 && promise >> bits > 0` rejects
+R-C07-5  = R-C17-3 for RangeStatement::init: the promise vector (and the commitments) a statement holds are the caller's, unadjusted --
+         prover, transcript and verifier all read that field, so a constructor that rewrites it changes what acceptance establishes
 """
 from bpsa.facts import callee_decl, callee_name
 from bpsa.normal import canon
@@ -19,7 +21,7 @@ ASSUMPTIONS = ['Scalar::from(u64) embeds the integer', 'the two absorption sites
 RULE_TEXT = 'one obligation per clause and role; non-trivial = decided from a data term, accumulator event or guard'
 
 
-def run(ctx):
+def _run(ctx):
     rep = ctx.rep
     # ---- R-C07-1
     for role in ('prover', 'verifier'):
@@ -159,3 +161,9 @@ def check_h_scalar(ctx, v):
                   'value-generator scalar -= w_j * Scalar::from(promise_j) with w_j the dynamic scalar of commitment j (whole promise vector)',
                   'promise correction is `%s %s`: same weight term as the commitment\'s dynamic scalar: %s, whole promise vector: %s' % (op, short(val, 160), same, whole), ctx.where(v))
     # and the loop that pushes w_j runs over the statement's promises, the points extended are its commitments (paired-push rule R-C16-5 pair 0)
+
+def run(ctx):
+    _run(ctx)
+    from . import C17
+    from .common import shared
+    shared(ctx, lambda c: C17.stored_fields(c, only={'RangeStatement::<P>::init': ['commitments', 'minimum_value_promises']}), 'R-C17-3', 'R-C07-5')
